@@ -11,7 +11,7 @@
     composition — with an empty drop phase for every writer except the
     deflated ones — is what the per-offset exhaustive comparison of the check
     establishes (see level_note: that part is tested, not proved). *)
-From DicomV Require Import Base.Prelude Base.Endian Model.PData Model.FailIo Proofs.PDataP Proofs.FailIoP.
+From DicomV Require Import Base.Prelude Base.Endian Model.PData Model.FailIo Proofs.PDataP Proofs.PDataAsyncP Proofs.FailIoP.
 
 (** A sink that fails before all bytes of the operation have been accepted
     makes the operation return an error (never Ok, never a panic). *)
@@ -87,6 +87,20 @@ Proof.
   apply run_sync_gen; [lia|change (2 ^ 32) with 4294967296; lia].
 Qed.
 
+(** The same for the async writer (poll_write state machine, tokio write_all,
+    any pattern of Pending / partial writes / errors / zero-length writes). *)
+Theorem C34_pdata_async_reports : forall ctx max chunks s results wire_bytes u,
+  max_ok max ->
+  run_async ctx max (map OpWrite chunks) s true = (results, wire_bytes, u) ->
+  Forall (fun r => is_panic r = false) results /\
+  (Forall (fun r => is_okb r = true) results ->
+     results = all_ok (S (length chunks))
+     /\ wire_bytes = enc_all ctx (fragments (max - 6) (concat chunks))).
+Proof.
+  intros ctx max chunks s rs w u Hm. unfold max_ok, MAXIMUM_PDU_SIZE in Hm.
+  apply run_async_gen; [lia|change (2 ^ 32) with 4294967296; lia].
+Qed.
+
 (** Drop-time finish swallows errors (documented: "done automatically once the
     writer is dropped"): without the explicit finish the last PDU is lost
     silently; with it the error is reported. *)
@@ -123,6 +137,13 @@ Check C34_pdata_reports : forall ctx max chunks s results wire_bytes u,
      results = all_ok (S (length chunks))
      /\ wire_bytes = enc_all ctx (fragments (max - 6) (concat chunks))
      /\ exists delivered rest, s = delivered ++ rest /\ no_fault delivered /\ u = len delivered).
+Check C34_pdata_async_reports : forall ctx max chunks s results wire_bytes u,
+  max_ok max ->
+  run_async ctx max (map OpWrite chunks) s true = (results, wire_bytes, u) ->
+  Forall (fun r => is_panic r = false) results /\
+  (Forall (fun r => is_okb r = true) results ->
+     results = all_ok (S (length chunks))
+     /\ wire_bytes = enc_all ctx (fragments (max - 6) (concat chunks))).
 Print Assumptions C34_write_reports.
 Print Assumptions C34_no_partial_success.
 Print Assumptions C34_never_panics.
@@ -133,3 +154,4 @@ Print Assumptions C34_read_reports.
 Print Assumptions C34_read_no_partial_success.
 Print Assumptions C34_read_never_panics.
 Print Assumptions C34_pdata_reports.
+Print Assumptions C34_pdata_async_reports.
